@@ -250,7 +250,7 @@ Definition finish_main (c : cfg) (f m : nat) (cached : list nat) (s1 : state) : 
       end
   end.
 
-Definition load_main (fs : list file) (c : cfg) (f : nat) (s0 : state) : (err + nat) * state :=
+Definition load_main_raw (fs : list file) (c : cfg) (f : nat) (s0 : state) : (err + nat) * state :=
   let s := begin_op c s0 in
   match (if cglobal c then dget f (allm s) else None) with
   | Some m =>   (* cached: the processors run again only if the source says so (Gen/SrcRepo.v) *)
@@ -261,6 +261,22 @@ Definition load_main (fs : list file) (c : cfg) (f : nat) (s0 : state) : (err + 
       | (inr m, s1) => finish_main c f m (map snd (allm s)) s1
       end
   end.
+
+(* Garbage collection at the end of a top-level load.  Model objects are heap indices, and Python frees
+   what nothing refers to: after a FAILED load the models created by the attempt (indices >= the heap size at
+   its start) are unreachable - that is C18_clean, proved on load_main_raw - so they are dropped from the heap
+   and from the per-model tables; after a successful load nothing is dropped.  `locals` is a finite map; it is
+   kept in the normal form "ascending model index, non-empty entries only". *)
+Definition nonempty_entry (e : nat * list (nat * nat)) : bool := negb (is_nil (snd e)).
+Definition norm_locals (n : nat) (s : state) : list (nat * list (nat * nat)) :=
+  filter nonempty_entry (map (fun x => (x, local_of x s)) (seq 0 n)).
+Definition tidy (n : nat) (s : state) : state :=
+  mkState (firstn n (heap s)) (allm s) (norm_locals n s) (filter (fun x => Nat.ltb x n) (constr s))
+          (filter (fun kv => Nat.ltb (fst kv) n) (targets s)) (reads s) (curop s).
+Definition live_bound (s0 : state) (r : (err + nat) * state) : nat :=
+  match fst r with inl _ => length (heap s0) | inr _ => length (heap (snd r)) end.
+Definition load_main (fs : list file) (c : cfg) (f : nat) (s0 : state) : (err + nat) * state :=
+  let r := load_main_raw fs c f s0 in (fst r, tidy (live_bound s0 r) (snd r)).
 
 (* ---------- histories *)
 Inductive op := OLoad (f : nat) | OWrite (f : nat) (fc : file).
